@@ -593,7 +593,9 @@ def check(run):
         raise MachineryError("no negative control could be built")
 
     # (ii) ScanSplit
-    depth = 3 if thorough else 2
+    # Depth 3 with Rich spellings no longer finishes in a useful time since the lexer alphabet grew (the initial states are
+    # enumerated by one thread): the thorough tier adds the Rich spellings at depth 2 (372k states, ~8 min)
+    depth = 2
     sres = run.tlc("MC_ExprScan", "CONSTANTS Depth = %d\n Rich = %s\nSPECIFICATION MCSpec\nINVARIANT PrintTerminal ScanSplit Accounting\nCHECK_DEADLOCK FALSE\n"
                    % (depth, "TRUE" if thorough else "FALSE"), name="mc-exprscan", coverage=False, workers=workers, timeout=1500)
     if sres.violated:
